@@ -840,6 +840,10 @@ class Auditor:
         self.runs += 1
         return self.sess.ask("audit " + path)
 
+    def struct(self, path, dbid):
+        """node fields of one database as the independent reader (KV/Audit.v + KV/Codec.v) decodes them"""
+        return self.sess.ask("struct %s %d" % (path, dbid))
+
     def close(self):
         self.sess.close()
 
@@ -848,6 +852,7 @@ def execute(impl, lines, modes, env=None, auditor=None):
     """run one script against the implementation with the oracle; returns (final lines, outputs, oracle)"""
     orc = Oracle(modes)
     cur_path, cur_wal = None, 0
+    dbids = {}
     sess = Session(impl, env)
     final, outs = [], []
     for raw in lines:
@@ -888,6 +893,10 @@ def execute(impl, lines, modes, env=None, auditor=None):
             cur_path, cur_wal = line.split()[1], int(line.split()[2])
         else:
             orc.step(i, line, out)
+        if line.startswith("db ") and out == "OK":
+            dbids[int(line.split()[1])] = int(line.split()[2])
+        if line.startswith("dbdestroy ") and out == "OK":
+            dbids.pop(int(line.split()[1]), None)
         if out is None:
             break
         # independent reader of the file format: after a clean close always; without WAL (shared mapping of the
@@ -897,6 +906,16 @@ def execute(impl, lines, modes, env=None, auditor=None):
             verdict = auditor.audit(cur_path)
             if verdict != "WF":
                 orc.bad.append((i, "independent reader of the file format rejects the image after `%s`: %s" % (line[:40], (verdict or "auditor died")[:300])))
+            # field-level agreement of the two readers: what the implementation's block reader reports for the nodes of
+            # this database (level, count, flag, prefix, data-block size, stored keys) is what the model reader decodes
+            if line.split()[0] == "struct" and out and out.startswith("OK") and verdict == "WF":
+                slot = int(line.split()[1])
+                if slot in dbids:
+                    mine = auditor.struct(cur_path, dbids[slot]) or ""
+                    strip = lambda t: " ".join(x for x in t.split(" ") if not x.startswith("lcnt="))
+                    if strip(out) != strip(mine):
+                        orc.bad.append((i, "the independent reader decodes the nodes of the database differently from the implementation's own "
+                                           "reader: implementation `%s` reader `%s`" % (out[:150], mine[:150])))
     rc, err = sess.close()
     return final, outs, orc, rc, err
 
